@@ -11,7 +11,7 @@ from ..core import Machinery
 
 BASE, SCALE = 100.0, 10.0
 TFNAME = {1: '1m', 3: '3m', 5: '5m', 15: '15m'}
-NOENTRY = {"dir": 0, "p": 0, "sl": 0, "tp": 0}
+NOENTRY = {"dir": 0, "p": 0, "sl": 0, "tp": 0, "rel": False, "d": 0}
 IDLE = {"cancel": False, "close": False, "entry": NOENTRY}
 
 
@@ -44,9 +44,17 @@ def scenario_strategy(rows):
 
         def _go(self):
             e = self._row()['entry']
-            self.stop_loss = 1, P(e['sl'])
-            self.take_profit = 1, P(e['tp'])
+            self._rel = (e['dir'], e['d']) if e['rel'] else None
+            if not e['rel']:
+                self.stop_loss = 1, P(e['sl'])
+                self.take_profit = 1, P(e['tp'])
             return 1, P(e['p'])
+
+        def on_open_position(self, order):
+            if getattr(self, '_rel', None):          # exits at a distance from the price the strategy sees in the hook
+                d, dist = self._rel
+                self.stop_loss = 1, self.price - d * dist * SCALE
+                self.take_profit = 1, self.price + d * dist * SCALE
 
         def go_long(self):
             self.buy = self._go()
@@ -125,11 +133,14 @@ def rand_row(rng, K, wide):
     if rng.random() < 0.6:
         d = rng.choice([1, -1])
         p = rng.randint(2, K - 1)
+        if rng.random() < 0.35:   # exits placed in on_open_position relative to the price seen there
+            r["entry"] = {"dir": d, "p": p, "sl": 0, "tp": 0, "rel": True, "d": rng.randint(1, K - 1) if not wide else K - 1}
+            return r
         if wide:       # exits far away (inside the quantifier of C12 more often)
             lo, hi = 1, K
         else:
             lo, hi = rng.randint(1, p - 1), rng.randint(p + 1, K)
-        r["entry"] = {"dir": d, "p": p, "sl": lo if d == 1 else hi, "tp": hi if d == 1 else lo}
+        r["entry"] = {"dir": d, "p": p, "sl": lo if d == 1 else hi, "tp": hi if d == 1 else lo, "rel": False, "d": 0}
     return r
 
 
@@ -175,32 +186,49 @@ def scenario_trace(tid, sc, rn, rf):
 
 
 # ------------------------------------------------------------------------------------------------ M + R
-def se_cfg(K, chunk, tf, n, spacing, invs, constraint=True, gaps=True, innerfix=False, partial_raises=False):
+def se_cfg(K, chunk, tf, n, spacing, invs, constraint=True, gaps=True, innerfix=False, partial_raises=False, rel=False):
     b = lambda x: "TRUE" if x else "FALSE"
     return ("SPECIFICATION Spec\nVIEW View\nCHECK_DEADLOCK FALSE\n"
-            "CONSTANTS K = %d Chunk = %d TF = %d NMin = %d Gaps = %s Spacing = %s InnerFix = %s PartialChunkRaises = %s\n"
-            % (K, chunk, tf, n, b(gaps), b(spacing), b(innerfix), b(partial_raises))
+            "CONSTANTS K = %d Chunk = %d TF = %d NMin = %d Gaps = %s Spacing = %s InnerFix = %s PartialChunkRaises = %s "
+            "RelExits = %s\n" % (K, chunk, tf, n, b(gaps), b(spacing), b(innerfix), b(partial_raises), b(rel))
             + ("CONSTRAINT InPre\n" if constraint else "") + "".join("INVARIANT %s\n" % i for i in invs))
 
 
-def scenarios_from(r, tag, chunk, tf, K):
+F_ = lambda o, c, h, l: {"o": o, "c": c, "h": h, "l": l}
+CANONICAL = {"chunk": 3, "tf": 3, "K": 3, "hist": [
+    {"k": "feed", "raw": [F_(1, 1, 1, 1)] * 3},
+    {"k": "decide", "row": {"cancel": False, "close": False, "entry": {"dir": 1, "p": 2, "sl": 1, "tp": 3, "rel": False, "d": 0}}},
+    {"k": "feed", "raw": [F_(1, 1, 1, 1), F_(1, 1, 1, 1), F_(2, 2, 2, 1)]}, {"k": "decide", "row": IDLE},
+    {"k": "feed", "raw": [F_(2, 2, 2, 2)] * 3}]}
+
+
+def detect_inner_fix():
+    """which variant of the fast loop does the tree contain?  (an input of the model, not a verdict): on the canonical
+    gapped-inner-minute scenario the unrepaired loop also fills the stop-loss, the repaired one does what the normal one does"""
+    (rn, rf), = run_scenarios([CANONICAL])
+    return rn["exc"] == "none" and rf["exc"] == "none" and rn["fills"] == rf["fills"]
+
+
+def scenarios_from(r, tag, chunk, tf, K, cap=None, rng=None):
     out = []
     for t in tlc.tagged(r, tag):
         hist = json.loads(t[1])
         if sum(len(e["raw"]) for e in hist if e["k"] == "feed") < 2:
             continue                  # research.backtest() itself needs two candles to validate the 1m spacing
         out.append({"hist": hist, "chunk": chunk, "tf": tf, "K": K})
+    if cap and len(out) > cap:
+        out = rng.sample(out, cap)
     return out
 
 
-def bind(ctx, scens, label, stats):
+def bind(ctx, scens, label, stats, fixed):
     """run the scenarios on both real simulators and let TLC compare with the model's prediction"""
     if not scens:
-        return
+        return []
     res = run_scenarios(scens)
     traces = [scenario_trace(j + 1, sc, rn, rf) for j, (sc, (rn, rf)) in enumerate(zip(scens, res))]
-    verdicts, results = tlc.validate_traces("TraceSimModel", "TraceSimModel.cfg", traces, ctx.sub("bind-" + label), parts=16,
-                                            timeout=1500)
+    verdicts, results = tlc.validate_traces("TraceSimModel", "TraceSimModel_fixed.cfg" if fixed else "TraceSimModel.cfg", traces,
+                                            ctx.sub("bind-" + label), parts=16, timeout=1500)
     for r in results:
         ctx.coverage["binding_states_checked_by_tlc"] = ctx.coverage.get("binding_states_checked_by_tlc", 0) + r.generated
     for tid, (pre, agree, v) in sorted(verdicts.items()):
@@ -215,6 +243,7 @@ def bind(ctx, scens, label, stats):
                 stats['and_the_code_differs_too'] += 1
         if v.startswith("c12:"):
             # real normal vs real fast differ on a scenario that TLC classified as inside antecedent + quantifier
+            stats['c12'] += 1
             ctx.violation("scenario:" + v[4:], "scenario (%s, lattice %d, chunk %d, trading %dm) inside the precondition: the real "
                           "simulators differ: %s; normal %s fast %s" % (label, sc["K"], sc["chunk"], sc["tf"], v, rn, rf),
                           {"scenario": sc})
@@ -224,105 +253,134 @@ def bind(ctx, scens, label, stats):
     return res
 
 
+def new_stats():
+    return dict(scenarios=0, inside_quantifier=0, real_runs=0, fills=0, model_says_simulators_differ=0,
+                and_the_code_differs_too=0, c12=0, mismatch_in=[], mismatch_out=[])
+
+
 def model_part(ctx):
+    """M: TLC explores the lock-step product.  Returns whether the tree contains the repaired fast loop."""
+    from . import simruns as R
+    R.warm_parent()
+    fixed = detect_inner_fix()
+    ctx.coverage["fast_loop_variant"] = "inner minutes jump-fixed (repaired)" if fixed else \
+        "inner minutes widened only, open kept (defect inner-gap-fill present)"
+    main_inv = "Equiv" if fixed else "EquivKnown"
     jobs, labels = [], []
-    q = [(3, 2, 2, 6), (3, 3, 3, 6), (4, 2, 2, 4), (3, 2, 4, 8), (3, 1, 3, 6), (4, 1, 1, 3), (3, 2, 2, 5), (3, 3, 3, 5)]
-    t = q + [(4, 2, 2, 6), (5, 2, 2, 4), (4, 2, 4, 8), (4, 1, 3, 6), (5, 1, 1, 4), (3, 3, 3, 9)]
-    for (K, ch, tf, n) in ctx.pick(q, t):
-        jobs.append(dict(module="SimEquiv", cfg_text=se_cfg(K, ch, tf, n, True, ["Equiv", "NoErr"]), workers=4, coverage=True,
-                         timeout=2400))
-        labels.append("SimEquiv K=%d chunk=%d trading=%d minutes=%d quantifier=spacing" % (K, ch, tf, n))
+    # (K, chunk, trading tf, minutes, relative exits)
+    q = [(3, 2, 2, 4, True), (3, 3, 3, 6, False), (4, 2, 2, 4, False), (3, 2, 4, 8, False), (3, 1, 3, 6, True),
+         (4, 1, 1, 3, False), (3, 2, 2, 5, False), (3, 3, 3, 5, False)]
+    t = q + [(3, 2, 2, 6, True), (4, 2, 2, 6, False), (4, 2, 2, 4, True), (3, 3, 3, 6, True), (5, 2, 2, 4, False), (4, 2, 4, 8, False),
+             (4, 1, 3, 6, True), (5, 1, 1, 4, True), (3, 3, 3, 9, False)]
+    for (K, ch, tf, n, rel) in ctx.pick(q, t):
+        jobs.append(dict(module="SimEquiv", cfg_text=se_cfg(K, ch, tf, n, True, [main_inv, "NoErr"], innerfix=fixed, rel=rel),
+                         workers=4, coverage=True, timeout=3000))
+        labels.append("SimEquiv K=%d chunk=%d trading=%d minutes=%d rel-exits=%s invariant=%s" % (K, ch, tf, n, rel, main_inv))
     res = tlc.run_parallel(jobs, max_procs=4)
     for r, lab in zip(res, labels):
         ctx.add_tlc(r, lab)
         if r.violation:
-            # inside the property's quantifier the model of the unchanged code must be equivalent: a counter-example is a
-            # finding candidate - replayed below before anything is concluded
-            raise Machinery("%s violates %s - replay the counter-example (hist) on the code:\n%s" % (
-                lab, r.violation["name"], r.violation["trace"][-4000:]))
+            raise Machinery("%s violates %s - a model-level counter-example inside the quantifier that is not of the known "
+                            "class; replay its hist on the code:\n%s" % (lab, r.violation["name"], r.violation["trace"][-4000:]))
         for a in ("Feed", "Compare", "DecideStep"):
             if r.coverage.get(a, (0, 0))[1] == 0:
                 raise Machinery("action %s never taken in %s" % (a, lab))
     # probes: the antecedent of Equiv is reachable with resting fills, closed trades, market fills and gapped chunks
     probes = ["ProbeRestingFill", "ProbeClosedTrade", "ProbeMarketFill", "ProbeExitAfterGap"]
-    pres = tlc.run_parallel([dict(module="SimEquiv", cfg_text=se_cfg(3, 2, 2, 6, True, [p]), workers=2, timeout=900)
+    pres = tlc.run_parallel([dict(module="SimEquiv", cfg_text=se_cfg(3, 2, 2, 6, True, [p], innerfix=fixed), workers=2, timeout=900)
                              for p in probes], max_procs=4)
     for p, r in zip(probes, pres):
         if not r.violation or r.violation["name"] != p:
             raise Machinery("non-vacuity probe %s is not reachable: Equiv would be vacuous" % p)
     ctx.coverage["antecedent_reachable_with"] = probes
+    # the repaired variant of the loop satisfies Equiv itself (no exclusion) - evidence for the proposed fix
+    if not fixed:
+        n = ctx.pick(4, 6)
+        r = tlc.run("SimEquiv", cfg_text=se_cfg(3, 2, 2, n, True, ["Equiv", "NoErr"], innerfix=True, rel=True), workers=4, timeout=1800)
+        ctx.add_tlc(r, "SimEquiv K=3 chunk=2 trading=2 minutes=%d rel-exits=True invariant=Equiv, REPAIRED loop (InnerFix)" % n)
+        if r.violation:
+            raise Machinery("the proposed repair (InnerFix) does not satisfy Equiv in the model: %s" % r.violation["trace"][-3000:])
+    return fixed
 
 
-def binding_part(ctx):
+def binding_part(ctx, fixed):
     """R + T for the model: TLC-generated and random scenarios replayed on the real simulators.  Returns the list of
     scenarios inside the quantifier where TLC rejects the model's description of a simulator (caller decides)."""
-    # R: scenarios generated by TLC, replayed on the real simulators, judged by TLC against the model
-    from . import simruns as R
-    R.warm_parent()
-    stats = dict(scenarios=0, inside_quantifier=0, real_runs=0, fills=0, model_says_simulators_differ=0, and_the_code_differs_too=0,
-                 mismatch_in=[], mismatch_out=[])
-    exp = [(3, 3, 3, 6), (3, 1, 3, 6)] if ctx.quick else [(3, 3, 3, 6), (3, 1, 3, 6), (4, 1, 3, 6), (4, 1, 1, 4), (3, 3, 3, 9)]
-    eres = tlc.run_parallel([dict(module="SimEquiv", cfg_text=se_cfg(K, ch, tf, n, False, ["Export", "NoErr"], constraint=False),
-                                  workers=4, timeout=2400) for (K, ch, tf, n) in exp], max_procs=4)
+    rng = random.Random(ctx.seed + 12)
+    stats = new_stats()
+    cap = ctx.pick(500, 2500)
+    exp = [(3, 3, 3, 6, False), (3, 1, 3, 6, True)] if ctx.quick else \
+          [(3, 3, 3, 6, True), (3, 1, 3, 6, True), (4, 1, 3, 6, False), (4, 1, 1, 4, True), (3, 3, 3, 9, False)]
+    eres = tlc.run_parallel([dict(module="SimEquiv", cfg_text=se_cfg(K, ch, tf, n, False, ["Export", "NoErr"], constraint=False,
+                                                                     innerfix=fixed, rel=rel),
+                                  workers=4, timeout=3000) for (K, ch, tf, n, rel) in exp], max_procs=4)
     n_exp = 0
-    for (K, ch, tf, n), r in zip(exp, eres):
+    for (K, ch, tf, n, rel), r in zip(exp, eres):
         if r.violation:
             raise Machinery("export run violated %s" % r.violation["name"])
-        ctx.add_tlc(r, "SimEquiv export K=%d chunk=%d trading=%d minutes=%d (no antecedent)" % (K, ch, tf, n))
-        sc = scenarios_from(r, "SCEN", ch, tf, K)
+        ctx.add_tlc(r, "SimEquiv export K=%d chunk=%d trading=%d minutes=%d rel-exits=%s (no antecedent)" % (K, ch, tf, n, rel))
+        sc = scenarios_from(r, "SCEN", ch, tf, K, cap, rng)
         n_exp += len(sc)
-        bind(ctx, sc, "export-%d-%d-%d-%d" % (K, ch, tf, n), stats)
-    # the statement's antecedent alone (<= 1 resting fill per trading candle) is NOT enough: TLC lists every distinct
-    # chunk-end state where the simulators differ; each witness is replayed on the code
+        bind(ctx, sc, "export-%d-%d-%d-%d" % (K, ch, tf, n), stats, fixed)
+    # (a) inside antecedent + quantifier: every distinct chunk-end state where the model's simulators differ (none for the
+    #     repaired loop; the known class inner-gap-fill otherwise) - each witness is replayed, the real simulators must differ
+    # (b) with the statement's antecedent alone (<= 1 resting fill per trading candle, no spacing) they differ in more ways
+    # (c) the seeded former defect (trailing partial chunk raises)
     dres = tlc.run_parallel([
-        dict(module="SimEquiv", cfg_text=se_cfg(3, 3, 3, 6, False, ["Diverge", "NoErr"]), workers=4, timeout=2400),
-        dict(module="SimEquiv", cfg_text=se_cfg(3, 3, 3, 5, True, ["Diverge", "NoErr"], partial_raises=True), workers=4,
-             timeout=2400)], max_procs=2)
-    dsc = scenarios_from(dres[0], "DIVERGE", 3, 3, 3)
-    rsc = scenarios_from(dres[1], "DIVERGE", 3, 3, 3)
-    if not dsc:
+        dict(module="SimEquiv", cfg_text=se_cfg(3, 3, 3, 6, True, ["Diverge", "NoErr"], innerfix=fixed, rel=True), workers=4, timeout=3000),
+        dict(module="SimEquiv", cfg_text=se_cfg(3, 3, 3, 6, False, ["Diverge", "NoErr"], innerfix=fixed), workers=4, timeout=3000),
+        dict(module="SimEquiv", cfg_text=se_cfg(3, 3, 3, 5, True, ["Diverge", "NoErr"], innerfix=fixed, partial_raises=True), workers=4,
+             timeout=3000)], max_procs=3)
+    isc = scenarios_from(dres[0], "DIVERGE", 3, 3, 3, cap, rng)
+    dsc = scenarios_from(dres[1], "DIVERGE", 3, 3, 3, cap, rng)
+    rsc = scenarios_from(dres[2], "DIVERGE", 3, 3, 3)
+    if fixed and isc:
+        raise Machinery("the repaired model still diverges inside the quantifier (%d states)" % len(isc))
+    if not fixed and not isc:
+        raise Machinery("the unrepaired model shows no divergence inside the quantifier: the known class would be vacuous")
+    if not dsc and not fixed:
         raise Machinery("no divergence without the spacing quantifier: the antecedent would be irrelevant (model too weak)")
-    if not rsc or not all(len(s["hist"][-1]["raw"]) < 3 for s in rsc if s["hist"][-1]["k"] == "feed"):
-        raise Machinery("ragged-length instance: expected divergences only at the short trailing chunk, got %d" % len(rsc))
+    if not rsc:
+        raise Machinery("seeded partial-chunk defect not visible in the model")
+    before = stats['c12']
+    bind(ctx, isc, "diverge-inside-quantifier", stats, fixed)
+    n_in_conf = stats['c12'] - before
     before = stats['and_the_code_differs_too']
-    bind(ctx, dsc, "diverge-fills-only", stats)
+    bind(ctx, dsc, "diverge-fills-only", stats, fixed)
     n_div_conf = stats['and_the_code_differs_too'] - before
-    # (the ragged-length witnesses belong to the seeded former defect PartialChunkRaises = TRUE; the repaired code is bound
-    #  through the random scenarios, a twelfth of which end in a partial chunk)
-    # T (model binding): random scenarios, larger lattices and real 5m / 15m timeframes
-    rng = random.Random(ctx.seed + 12)
-    n_rand = ctx.pick(300, 6000)
+    # T (model binding): random scenarios, larger lattices and real 1m / 3m / 5m / 15m timeframes, ragged tails
+    n_rand = ctx.pick(400, 6000)
     rs = [rand_scenario(rng, ragged=(j % 12 == 0)) for j in range(n_rand)]
     for off in range(0, n_rand, 1500):
-        bind(ctx, rs[off:off + 1500], "random-%d" % off, stats)
+        bind(ctx, rs[off:off + 1500], "random-%d" % off, stats, fixed)
     ctx.coverage.update({
         "model_scenarios_replayed_on_code": stats['scenarios'], "of_which_inside_the_quantifier": stats['inside_quantifier'],
         "model_replay_real_runs": stats['real_runs'],
         "model_replay_fills": stats['fills'], "tlc_exported_scenarios": n_exp,
         "model_says_simulators_differ": stats['model_says_simulators_differ'],
         "of_which_the_code_differs_too": stats['and_the_code_differs_too'],
+        "divergences_inside_the_quantifier": {"found_by_tlc": len(isc), "reproduced_on_code": n_in_conf},
         "divergences_with_fill_count_antecedent_only": {"found_by_tlc": len(dsc), "reproduced_on_code": n_div_conf},
         "seeded_partial_chunk_defect_divergences_found_by_tlc": len(rsc),
         "model_binding_mismatches_inside_the_quantifier": len(stats['mismatch_in']),
         "model_binding_mismatches_outside_the_quantifier": len(stats['mismatch_out']),
-        "divergence_sample": dsc[0]["hist"],
+        "divergence_sample": ((isc or dsc or rsc)[0]["hist"]),
     })
     if stats['mismatch_out']:
         ctx.notes.append("SimCore mispredicts a simulator on %d scenario(s) OUTSIDE the precondition of C12 (first: %s) - the "
                          "model is out of date there; not a C12 verdict" % (len(stats['mismatch_out']),
                                                                           json.dumps(stats['mismatch_out'][0])[:600]))
-    ctx.notes.append("outside the quantifier (exits NOT spaced wider than a trading candle moves) the fast simulator differs from "
-                     "the normal one although the normal run has <= 1 resting fill per trading candle: TLC found %d such chunk-end "
-                     "states on lattice 3 / chunk 3; %d reproduced on the real simulators (e.g. entry stop at 2 filled at the open of a "
-                     "gapped inner minute (o=2,l=1,c=2 after close 1): fast also fills the stop-loss at 1, normal does not)" %
-                     (len(dsc), n_div_conf))
+    ctx.notes.append("outside the quantifier (exits NOT spaced wider than a trading candle moves) but with <= 1 resting fill per "
+                     "trading candle in the normal run: TLC found %d chunk-end states on lattice 3 / chunk 3 where the fast simulator "
+                     "differs from the normal one; %d reproduced on the real simulators%s" % (
+                         len(dsc), n_div_conf, " (none: the repaired loop agrees on the fill-count antecedent alone)" if not dsc else ""))
     return stats['mismatch_in']
 
 
 def replay_scenario(ctx, p):
     from . import simruns as R
     R.warm_parent()
-    stats = dict(scenarios=0, inside_quantifier=0, real_runs=0, fills=0, model_says_simulators_differ=0,
-                 and_the_code_differs_too=0, mismatch_in=[], mismatch_out=[])
-    res = bind(ctx, [p["scenario"]], "replay", stats)
+    fixed = detect_inner_fix()
+    stats = new_stats()
+    res = bind(ctx, [p["scenario"]], "replay", stats, fixed)
     print("replay: normal %s fast %s; model mismatches %s" % (res[0][0], res[0][1], stats['mismatch_in'] + stats['mismatch_out']))
